@@ -55,3 +55,33 @@ Proof.
   split. { vm_compute. auto 80. }
   split; vm_compute; reflexivity.
 Qed.
+
+(* ... and for the classes with an immediate written as a literal: every mnemonic of the I-type table (loads, addi .. andi, jalr,
+   the csr instructions), the S-type table (stores) and the U-type table (lui, auipc), in the `reg, reg, imm` spelling (C13 adds `imm(reg)`) *)
+Theorem C01_imm_line_end_to_end :
+  forall l name toks it args w,
+  (exists rd rs1 tok v, In name EndToEnd.i_names /\ String.eqb rd "=" = false /\ String.eqb tok "(" = false /\
+       Parser.parse_immediate [tok] l = Parser.FOk (Items.EArith (Items.ANum v)) /\ toks = [name; rd; rs1; tok] /\
+       args = [AStr rd; AStr rs1; AInt v] /\
+       it = Items.IInstr "ITypeInstruction" name [("rd", Parser.R rd); ("rs1", Parser.R rs1); ("imm", Items.FExpr (Items.EArith (Items.ANum v)));
+                                                  ("is_auipc_jump", Items.FBool false)]%string false) \/
+  (exists rs1 rs2 tok v, In name EndToEnd.s_names /\ String.eqb rs1 "=" = false /\ String.eqb tok "(" = false /\
+       Parser.parse_immediate [tok] l = Parser.FOk (Items.EArith (Items.ANum v)) /\ toks = [name; rs1; rs2; tok] /\
+       args = [AStr rs1; AStr rs2; AInt v] /\
+       it = Items.IInstr "STypeInstruction" name [("rs1", Parser.R rs1); ("rs2", Parser.R rs2); ("imm", Items.FExpr (Items.EArith (Items.ANum v)))]%string false) \/
+  (exists rd tok v, In name EndToEnd.u_names /\ String.eqb rd "=" = false /\
+       Parser.parse_immediate [tok] l = Parser.FOk (Items.EArith (Items.ANum v)) /\ toks = [name; rd; tok] /\ args = [AStr rd; AInt v] /\
+       it = Items.IInstr "UTypeInstruction" name [("rd", Parser.R rd); ("imm", Items.FExpr (Items.EArith (Items.ANum v)))]%string false) ->
+  In name base_mnemonics -> encode name args nil = Ok w ->
+  exists ops i,
+    Parser.parse_item l toks = Parser.FOk it /\
+    Passes.assemble_items ((l, it) :: nil) nil nil false =
+      Passes.Done {| Passes.r_chunks := (l, Passes.CBytes (Passes.le_bytes 4 w)) :: nil; Passes.r_consts := nil; Passes.r_labels := nil |} /\
+    0 <= w < 2 ^ 32 /\ operands32 name args nil = Some ops /\ denote32 name ops = Some i /\ decode32 w = Some i.
+Proof. exact EndToEnd.imm_line_end_to_end. Qed.
+Print Assumptions C01_imm_line_end_to_end.
+Example C01_imm_line_example : forall l,
+  Parser.parse_immediate ["-5"%string] l = Parser.FOk (Items.EArith (Items.AUn Items.UNeg (Items.ANum 5))) /\
+  Parser.parse_immediate ["0x7ff"%string] l = Parser.FOk (Items.EArith (Items.ANum 2047)) /\
+  encode "lw" [AStr "x8"; AStr "sp"; AInt 2047] nil = Ok 2146509827.
+Proof. intro l. repeat split; vm_compute; reflexivity. Qed.
